@@ -76,7 +76,9 @@ def small_lexicons():
     """All lexicons with <= 2 lexicon-level frames (with/without senses), <= 2 entries with <= 2 senses, every
     subcat subset, <= 1 entry-level frame per entry (with/without senses)."""
     frame_opts = [None, {'id': 'f1', 'subcategorizationFrame': 'F1'},
-                  {'id': 'f1', 'subcategorizationFrame': 'F1', 'senses': ['s11']}]
+                  {'id': 'f1', 'subcategorizationFrame': 'F1', 'senses': ['s11']},
+                  # a second frame WITHOUT id (ids are optional): two id-less frames must stay two frames
+                  {'subcategorizationFrame': 'F5'}, {'subcategorizationFrame': 'F5', 'senses': ['s11']}]
     frame2_opts = [None, {'id': 'f2', 'subcategorizationFrame': 'F2'},
                    {'subcategorizationFrame': 'F4'}, {'subcategorizationFrame': 'F4', 'senses': ['s11']}]  # id optional
     subcats = [[], ['f1'], ['f2'], ['f1', 'f2']]
